@@ -218,8 +218,9 @@ func compile0(expr ast.Expr, env1 *val.Env, dbg bool) compiler.Closure {
 		// 也可以 desugar 成 build-in-fun
 		obj := compile(e.Obj, env1, dbg)
 		idx := e.Index
+		name := e.Field.Name
 		return func(env *val.Env) *val.Val {
-			return obj(env).Obj().V[idx]
+			return obj(env).Obj().Load(idx, name)
 		}
 
 	//case *ast.IfExpr:
